@@ -65,3 +65,12 @@ Definition canonical (p : bytes) : bool :=
 Definition last_elem (p : bytes) : bytes := last (split_slash p []) [].
 Definition ends_with_slash (p : bytes) : Prop := exists q, p = q ++ ["/"].
 Definition root : bytes := ["/"].
+
+(* vocabulary for the characterisation of the canonical paths: an element is
+   real and contains no '/'; a canonical path is the rendering of a list of
+   such elements, optionally followed by a slash when the list is not empty *)
+Definition ns (c : ascii) : Prop := Ascii.eqb c "/" = false.
+Definition noslash (e : bytes) : Prop := Forall ns e.
+Definition realp (e : bytes) : Prop := real_elem e = true /\ noslash e.
+Definition render (els : list bytes) (ts : bool) : bytes :=
+  match els with [] => ["/"] | _ => join els ++ (if ts then ["/"] else []) end.
